@@ -33,6 +33,10 @@ class C14(Prop):
                 wb = refcbor.head(2, len(body)) + body
                 ops.append(mk('dect %s b%s' % (t, (refcbor.head(6, tag) + wb).hex()), k='bstr-body', t=t, must_reject=True)); ops.append(mk('dec %s b%s' % (t, wb.hex()), k='bstr-body', t=t, must_reject=True))
                 ops.append(mk('dect %s b%s' % (t, (refcbor.head(6, tag) + refcbor.head(2, len(wb) + 0) + refcbor.head(6, tag) + body)[:0].hex() + (refcbor.head(6, tag) + refcbor.head(2, len(refcbor.head(6, tag) + body)) + refcbor.head(6, tag) + body).hex()), k='bstr-body', t=t, must_reject=True))
+                if r.random() < 0.25:
+                    for t2 in all_tags():     # right tag over any tag over a byte string holding the body (informed round 12: unwrapped as "encoded CBOR data item")
+                        ops.append(mk('dect %s b%s' % (t, (refcbor.head(6, tag) + refcbor.head(6, t2) + wb).hex()), k='bstr-body', t=t, must_reject=True))
+                    ops.append(mk('dect %s b%s' % (t, (refcbor.head(6, tag) + b'\x81' + body).hex()), k='bstr-body', t=t, must_reject=True))
                 for tg in tags:
                     # any tag in front of the body is rejected by untagged decoding; any second tag (outside or inside) by tagged decoding
                     ops.append(mk('dec %s b%s' % (t, (refcbor.head(6, tg) + body).hex()), k='untagged-on-tag%d' % tg, t=t, must_reject=True))
@@ -238,7 +242,7 @@ class C16(Prop):
             parts = impl.split(' ')
             if len(parts) != 3 or parts[0] != lex(ea, eb): return 'cmp differs from bytewise order of the deterministic encodings (texts of %d and %d bytes): %s' % (m['x'][0], m['y'][0], impl[:30])
             return None
-        if impl in ('panic', 'bad-partial'): return 'comparison panicked, or partial_cmp / one of the operators <, <=, >, >=, != disagrees with cmp and =='
+        if impl in ('panic', 'bad-partial'): return 'comparison panicked, or partial_cmp / one of the operators <, <=, >, >=, != or max / min disagrees with cmp and =='
         def enc(x):
             if x[0] in 'AP': return refcbor.encode(('int', int(x[1:])))
             if x[0] == 'X': return refcbor.encode(('text', bytes.fromhex(x[1:])))
@@ -293,6 +297,23 @@ class C17(Prop):
                     mk('chain ClaimsSet ba20161616' + e[1:] + '07' if False else 'chain ClaimsSet ba2016161' + e + '07', k='field-text'), mk('chain Header ba10281' + e, k='field-text'), mk('chain CoseKey ba201040481' + e, k='field-text'),
                     mk('chain CoseKdfContext b84' + e + '83f6f6f683f6f6f6820040', k='field-text'), mk('chain CoseSign1 b8440a101' + e + 'f640', k='field-text'),
                     mk('chain CoseSign1 b84' + refcbor.head(2, 2 + len(e) // 2).hex() + 'a101' + e + 'a0f640', k='field-text')]
+        # names of a registry compare as their integers do, private values and texts included: every pair over registered values of
+        # both signs, private values and texts (informed round 12: a negative registered name compared Equal to any private one, so a
+        # claims set holding both was refused as a duplicate)
+        for name in privnames:
+            rv = [v for _, v in dict(regs)[name]]; neg = [v for v in rv if v < 0][:6] + [v for v in rv if v < 0][-3:]; pos = [v for v in rv if v >= 0][:4]
+            vals_ = ['A%d' % v for v in dict.fromkeys(neg + pos)] + ['P%d' % p_ for p_ in (-65537, -65538, -70000, -2**63)] + ['X61', 'X']
+            for a_ in vals_:
+                for b_ in vals_: ops.append(mk('cmp RegLabelPriv:%s %s %s' % (name, a_, b_), k='reg-cmp'))
+        for pv in (-65537, -70000, -2**63):
+            for rv_ in (-260, -259, -257, 1, 8, 38):
+                ea, eb = refcbor.encode(('int', pv)).hex(), refcbor.encode(('int', rv_)).hex()
+                val = '6161' if rv_ == 1 else '00'
+                ops.append(mk('chain ClaimsSet ba2' + ea + '00' + eb + val, k='reg-mix')); ops.append(mk('chain ClaimsSet ba2' + eb + val + ea + '00', k='reg-mix'))
+        for pv in (-65537, -70000):
+            for rv_ in (-7, -35, -65535, 1, 10):
+                ea, eb = refcbor.encode(('int', pv)).hex(), refcbor.encode(('int', rv_)).hex()
+                ops.append(mk('chain CoseKeySet b82a2010403' + ea + 'a2010403' + eb, k='reg-mix')); ops.append(mk('chain Header ba20281' + '01' + '01' + ea if False else 'chain Header ba101' + ea, k='reg-mix'))
         for i in list(range(-65540, -65530)) + [-7, 8, 0]:
             e = refcbor.encode(('int', i)).hex()
             ops += [mk('dec Header ba101' + e, k='field'), mk('dec CoseKey ba2010103' + e, k='field'), mk('dec ClaimsSet ba1' + e + 'f6', k='field'), mk('dec Header ba10281' + e, k='field'), mk('dec CoseKey ba101' + e, k='field')]
@@ -434,13 +455,16 @@ class C19(Prop):
                               lambda: '(partial_iv %s)' % b(), lambda: '(add_counter_signature %s)' % g.sig(2), lambda: '(value i%d %s)' % (r.choice([0, 1, 2, 6, 7, 8, 9, -1, -65536, -65537, 2**63 - 1, -2**63, 33]), v()), lambda: '(text_value t%s %s)' % (g.txt().hex(), v())],
             'CoseSignatureBuilder': [lambda: '(protected %s)' % hdr(), lambda: '(unprotected %s)' % hdr(), lambda: '(signature %s)' % b()],
             'CoseSign1Builder': [lambda: '(protected %s)' % hdr(), lambda: '(unprotected %s)' % hdr(), lambda: '(payload %s)' % b(), lambda: '(signature %s)' % b(), lambda: '(create_signature %s echo)' % b(), lambda: '(try_create_signature %s (k b0102))' % b(), lambda: '(create_detached_signature %s %s echo)' % (b(), b())],
-            'CoseSignBuilder': [lambda: '(protected %s)' % hdr(), lambda: '(unprotected %s)' % hdr(), lambda: '(payload %s)' % b(), lambda: '(add_signature %s)' % g.sig(1), lambda: '(add_created_signature %s %s echo)' % (g.sig(1), b()), lambda: '(try_add_created_signature %s %s (fail 4))' % (g.sig(1), b())],
+            'CoseSignBuilder': [lambda: '(protected %s)' % hdr(), lambda: '(unprotected %s)' % hdr(), lambda: '(payload %s)' % b(), lambda: '(add_signature %s)' % g.sig(1), lambda: '(add_created_signature %s %s echo)' % (g.sig(1), b()), lambda: '(try_add_created_signature %s %s (fail 4))' % (g.sig(1), b()),
+                                # the four creating adders with a signer that returns nothing / a constant, on a signature that already carries bytes
+                                # (informed round 12: an empty signer output fell back to the stale signature)
+                                lambda: '(try_add_created_signature (sig (ph - %s) %s bdeadbeef) %s %s)' % (E, E, b(), r.choice(['(k b)', '(k b01)', 'echo'])), lambda: '(add_created_signature (sig (ph - %s) %s bdeadbeef) %s (k b))' % (E, E, b())],
             'CoseMacBuilder': [lambda: '(protected %s)' % hdr(), lambda: '(unprotected %s)' % hdr(), lambda: '(payload %s)' % b(), lambda: '(tag %s)' % b(), lambda: '(add_recipient %s)' % g.rcp(1), lambda: '(create_tag %s echo)' % b()],
-            'CoseMac0Builder': [lambda: '(protected %s)' % hdr(), lambda: '(unprotected %s)' % hdr(), lambda: '(payload %s)' % b(), lambda: '(tag %s)' % b(), lambda: '(try_create_tag %s (k b09))' % b()],
+            'CoseMac0Builder': [lambda: '(protected %s)' % hdr(), lambda: '(unprotected %s)' % hdr(), lambda: '(payload %s)' % b(), lambda: '(tag %s)' % b(), lambda: '(try_create_tag %s (k b09))' % b(), lambda: '(try_create_tag %s (k b))' % b(), lambda: '(create_tag %s (k b))' % b()],
             'CoseRecipientBuilder': [lambda: '(protected %s)' % hdr(), lambda: '(unprotected %s)' % hdr(), lambda: '(ciphertext %s)' % b(), lambda: '(add_recipient %s)' % g.rcp(1), lambda: '(create_ciphertext %s %s %s cat)' % (r.choice(['EncRecipient', 'MacRecipient', 'RecRecipient', 'CoseEncrypt', 'CoseEncrypt0']), b(), b()),
                                      lambda: '(try_create_ciphertext %s %s %s %s)' % (r.choice(['EncRecipient', 'MacRecipient', 'RecRecipient', 'CoseEncrypt', 'CoseEncrypt0']), b(), b(), r.choice(['cat', '(k b01)', '(fail 2)']))],
             'CoseEncryptBuilder': [lambda: '(protected %s)' % hdr(), lambda: '(unprotected %s)' % hdr(), lambda: '(ciphertext %s)' % b(), lambda: '(add_recipient %s)' % g.rcp(1), lambda: '(create_ciphertext %s %s cat)' % (b(), b())],
-            'CoseEncrypt0Builder': [lambda: '(protected %s)' % hdr(), lambda: '(unprotected %s)' % hdr(), lambda: '(ciphertext %s)' % b(), lambda: '(try_create_ciphertext %s %s (k b01))' % (b(), b())],
+            'CoseEncrypt0Builder': [lambda: '(protected %s)' % hdr(), lambda: '(unprotected %s)' % hdr(), lambda: '(ciphertext %s)' % b(), lambda: '(try_create_ciphertext %s %s (k b01))' % (b(), b()), lambda: '(try_create_ciphertext %s %s (k b))' % (b(), b()), lambda: '(create_ciphertext %s %s (k b))' % (b(), b())],
             'CoseKeyBuilder': [lambda: '(kty %s)' % g.rl('KeyType'), lambda: '(key_id %s)' % b(), lambda: '(base_iv %s)' % b(), lambda: '(key_type A%d)' % r.choice(reg_values('KeyType')), lambda: '(algorithm %s)' % alg(), lambda: '(add_key_op A%d)' % r.choice(reg_values('KeyOperation')),
                                lambda: '(param i%d %s)' % (r.choice([0, 1, 2, 3, 4, 5, 6, -1, -2, -3, -4, 2**63 - 1, -2**63]), v())],
             'ClaimsSetBuilder': [lambda: '(issuer t%s)' % g.txt().hex(), lambda: '(subject t%s)' % g.txt().hex(), lambda: '(audience t%s)' % g.txt().hex(), lambda: '(expiration_time %s)' % g.tts(), lambda: '(not_before %s)' % g.tts(), lambda: '(issued_at %s)' % g.tts(), lambda: '(cwt_id %s)' % b(),
@@ -507,7 +531,7 @@ class C20(Prop):
                   '(map i1 (map t7a i1 t61 i2) i0 (arr))', '(map i-1 i0 i-25 i1 i24 i2)', '(arr (arr (map b02 i1 b01 i2)))', '(map i1 i1 i1 i2)']
         # … and byte strings / texts whose content is the encoding of a key, a header, a key set in wire order: values like any other
         # (informed round 11: a byte string that decodes as a COSE_Key canonicalised recursively)
-        NESTED += ['ba203260101', 'ba2200103' + '26' if False else 'ba20326200101'[:0] + 'ba3200121022203', 'b81a203260101', 'ba201040482' + '0201', 'b43a10126', 'ba1010' + '1', '(arr ba203260101)', '(tag 24 ba203260101)', 't' + b'{3: -7, 1: 1}'.hex()]
+        NESTED += ['ba203260101', 'ba2200103' + '26' if False else 'ba20326200101'[:0] + 'ba3200121022203', 'b81a203260101', 'ba201040482' + '0201', 'b43a10126', 'ba1010' + '1', '(arr ba203260101)', '(tag 24 ba203260101)', '(arr (map i-1 baabb i1 i4))', '(arr (map i3 i-7 i1 i1) (map i1 i2))', '(map i1 (arr (map i-1 b01 i1 i4)))', 't' + b'{3: -7, 1: 1}'.hex()]
         VALS = ['N', 'i1', 'b00', '(arr)', 't61'] * 2 + NESTED
         def keyform(params):
             kty = r.choice(['A1', 'A2', 'A4', 'X6b']); kid = r.choice(['b', 'b01']); alg = r.choice(['-', 'A-7', 'P-70000', 'X61'])
